@@ -3,7 +3,7 @@ from worldcheck import *
 from sched import hx
 
 PROP = "C03"
-THEOREMS = ["C03", "C03Joint", "C03Local"]
+THEOREMS = ["C03", "C03Joint", "C03Local", "C03Explain"]
 
 
 def gen(rng, **kw):
